@@ -199,6 +199,32 @@ impl<const PROBS_ARRAY_LEN: usize> BitTree<PROBS_ARRAY_LEN> {
     }
 }
 
+#[cfg(feature = "verif_hooks")]
+impl<const PROBS_ARRAY_LEN: usize> BitTree<PROBS_ARRAY_LEN> {
+    /// Verification hook: feed the complete contents into `h`.
+    pub(crate) fn verif_hash_state<H: std::hash::Hasher>(&self, h: &mut H) {
+        for p in self.probs.iter() {
+            h.write_u16(*p);
+        }
+    }
+}
+
+#[cfg(feature = "verif_hooks")]
+impl LenDecoder {
+    /// Verification hook: feed the complete contents into `h`.
+    pub(crate) fn verif_hash_state<H: std::hash::Hasher>(&self, h: &mut H) {
+        h.write_u16(self.choice);
+        h.write_u16(self.choice2);
+        for t in self.low_coder.iter() {
+            t.verif_hash_state(h);
+        }
+        for t in self.mid_coder.iter() {
+            t.verif_hash_state(h);
+        }
+        self.high_coder.verif_hash_state(h);
+    }
+}
+
 #[derive(Debug)]
 pub struct LenDecoder {
     choice: u16,
